@@ -27,8 +27,16 @@ func TestGocvBoundedStratify(t *testing.T) {
 	for i := range preds {
 		preds[i] = ast.PredicateSym{Symbol: fmt.Sprintf("p%d", i), Arity: 1}
 	}
+	// two of the predicates share their NAME and differ in arity only (p0/1 and p0/2 are different predicates)
+	preds[1] = ast.PredicateSym{Symbol: "p0", Arity: 2}
 	x := ast.Variable{Symbol: "X"}
-	atom := func(i int) ast.Atom { return ast.Atom{Predicate: preds[i], Args: []ast.BaseTerm{x}} }
+	atom := func(i int) ast.Atom {
+		args := make([]ast.BaseTerm, preds[i].Arity)
+		for k := range args {
+			args[k] = x
+		}
+		return ast.Atom{Predicate: preds[i], Args: args}
+	}
 	base := ast.Atom{Predicate: ast.PredicateSym{Symbol: "base", Arity: 1}, Args: []ast.BaseTerm{x}}
 	pairs := n * n
 	total := 1
